@@ -162,6 +162,8 @@ pub struct GenCtx<'a> {
     pub exclude: Vec<String>,
     /// instructions emitted more often in this run (swarm focus)
     pub focus: Vec<String>,
+    /// also emit INDEX / GRAPH literals inside code (API-only items)
+    pub api_literals: bool,
 }
 
 impl<'a> GenCtx<'a> {
@@ -172,6 +174,7 @@ impl<'a> GenCtx<'a> {
             bound: vec![],
             exclude: vec![],
             focus: vec![],
+            api_literals: false,
         }
     }
 
@@ -198,6 +201,15 @@ impl<'a> GenCtx<'a> {
     }
 
     pub fn literal(&self, r: &mut Rng) -> ISpec {
+        if self.api_literals && r.chance(1, 40) {
+            // literals only the API can put into code (the parser has no syntax for them)
+            return if r.chance(1, 2) {
+                let d = r.below(6) as u32;
+                ISpec::Idx(r.below(d as u64 + 3) as u32, d)
+            } else {
+                ISpec::G(gen_graph(r))
+            };
+        }
         match r.below(16) {
             0..=6 => ISpec::Int(gen_int(r)),
             7..=9 => ISpec::F(gen_float(r, &self.fpool)),
@@ -413,7 +425,8 @@ pub fn gen_state(r: &mut Rng, ctx: &mut GenCtx) -> StateSpec {
     }
     for _ in 0..r.below(3) {
         let d = r.below(6) as u32;
-        s.indices.push((r.below(d as u64 + 1) as u32, d));
+        // current > destination is a legal state for a host to hand over (pub fields)
+        s.indices.push((r.below(d as u64 + 3) as u32, d));
     }
     let ni = match r.below(6) {
         0..=1 => 0,
@@ -451,7 +464,17 @@ pub fn family_program(r: &mut Rng, ctx: &GenCtx) -> Vec<ISpec> {
         let b = 2 + r.below(8) as usize;
         ctx.tree(r, b, 2)
     };
-    match r.below(9) {
+    match r.below(10) {
+        9 => {
+            // the GRAPH stack is a bounded stack-kind buffer (capacity 100): fill it
+            vec![ISpec::L(vec![
+                i("GRAPH.ADD"),
+                ISpec::Int(1),
+                i("GRAPH.NODE*ADD"),
+                i("EXEC.Y"),
+                ISpec::L(vec![i("GRAPH.DUP"), ISpec::Int(gen_small_int(r)), i("GRAPH.NODE*ADD"), ctx.instr(r)]),
+            ])]
+        }
         0 => vec![ISpec::L(vec![i("EXEC.Y"), body(r)])],
         1 => vec![ISpec::L(vec![
             i("CODE.QUOTE"),
